@@ -269,6 +269,17 @@ pub fn gen_spec_at(rng: &mut Rng, rich: bool, first_page: Option<u64>) -> ElfSpe
     if let Some(p) = first_page {
         page = p;
     }
+    // now and then the image is a single page-sized segment among the last pages of the address space (the last page
+    // itself cannot be used: its rounded end is 2^64)
+    if rich && first_page.is_none() && rng.below(40) == 0 {
+        let vaddr = (0xf_ffff_ffff_fffeu64 - rng.below(3)) << 12;
+        let memsz = 0x1000u64;
+        let filesz = *rng.pick(&[0x1000u64, 0x800, 0]);
+        let c0 = rng.next();
+        let data: Vec<u8> = (0..filesz).map(|i| ((mix64(c0 ^ i) % 255) + 1) as u8).collect();
+        let segs = vec![Seg { flags: *rng.pick(&[4u32, 5, 6]), vaddr, data, memsz, paddr: vaddr, align: 0x1000 }];
+        return ElfSpec { entry: vaddr + rng.below(0x100), segs, order: vec![0], extra: vec![], symbols: None };
+    }
     let mut counter = rng.next();
     for _ in 0..n {
         let memsz: u64 = match rng.below(if rich { 12 } else { 4 }) {
